@@ -46,8 +46,8 @@ func genLifecycle(c *hx.Ctx) {
 	c.WriteFile("Tab_Lifecycle.v", sb.String())
 }
 
-func lifeCfgLit(routines int, lhclient, lhupdate, ctcache, dns, sshd bool) string {
-	return hx.App("mkCfg", hx.Nat(routines), hx.Bool(lhclient), hx.Bool(lhupdate), hx.Bool(ctcache), hx.Bool(dns), hx.Bool(sshd))
+func lifeCfgLit(configured, queues int, multi bool, lhclient, lhupdate, ctcache, dns, sshd bool) string {
+	return hx.App("mkCfg", hx.Nat(configured), hx.Nat(queues), hx.Bool(multi), hx.Bool(lhclient), hx.Bool(lhupdate), hx.Bool(ctcache), hx.Bool(dns), hx.Bool(sshd))
 }
 
 func runLifecycle(c *hx.Ctx) {
@@ -63,18 +63,39 @@ func runLifecycle(c *hx.Ctx) {
 		{"rebind", "start", "rebind", "rebind", "stop", "rebind"},
 	}
 	vocab := []string{"start", "start", "startfailA", "startfailQ", "stop", "stop", "rebind", "fatal"}
-	for i := 0; i < c.N; i++ {
-		routines := 1 + c.Intn(3)
+	// boundary sweep first: configured routines x queues the device really opens x udp backend readable by several
+	// goroutines or not, stopped before Start, right after Start, and after some use
+	type lifeShape struct {
+		routines, queues int
+		multi            bool
+		ops              []string
+	}
+	var sweep []lifeShape
+	for r := 1; r <= 4; r++ {
+		for q := 1; q <= r; q++ {
+			for _, m := range []bool{true, false} {
+				for _, ops := range [][]string{{"stop"}, {"start", "stop"}, {"start", "rebind", "stop", "stop"}} {
+					sweep = append(sweep, lifeShape{r, q, m, ops})
+				}
+			}
+		}
+	}
+	for i := 0; i < c.N+len(sweep); i++ {
+		routines := 1 + c.Intn(4)
+		queues := 1 + c.Intn(routines)
+		multi := c.Chance(0.6)
 		var ops []string
-		if i < len(scripted) {
-			ops = scripted[i]
+		if i < len(sweep) {
+			routines, queues, multi, ops = sweep[i].routines, sweep[i].queues, sweep[i].multi, sweep[i].ops
+		} else if i-len(sweep) < len(scripted) {
+			ops = scripted[i-len(sweep)]
 		} else {
 			n := 1 + c.Intn(7)
 			for k := 0; k < n; k++ {
 				ops = append(ops, vocab[c.Intn(len(vocab))])
 			}
 		}
-		v := nebula.VerifLifeNew(routines)
+		v := nebula.VerifLifeNew(routines, queues, multi)
 		var steps []string
 		var descs []any
 		kind := "ops"
@@ -83,7 +104,12 @@ func runLifecycle(c *hx.Ctx) {
 			var lit string
 			switch o {
 			case "start":
-				v.Start(false, false)
+				if v.Start(false, false) == 0 {
+					// the readers are goroutines: wait (bounded) until as many run as queues were opened
+					for dl := time.Now().Add(500 * time.Millisecond); v.Readers() != v.QueuesHanded() && time.Now().Before(dl); {
+						time.Sleep(time.Millisecond)
+					}
+				}
 				lit = hx.App("OStart", "true")
 			case "startfailA":
 				v.Start(true, false)
@@ -121,14 +147,18 @@ func runLifecycle(c *hx.Ctx) {
 				waited = v.Wait(2 * time.Second)
 			}
 			steps = append(steps, hx.Tuple(lit, hx.Tuple(hx.N(uint64(st)), hx.Bool(v.CtxDone()), hx.Bool(v.UDPClosed()), hx.Bool(v.TunClosed()),
-				hx.N(uint64(v.Rebinds())), hx.N(uint64(v.TunCloses())), hx.Bool(waited))))
-			descs = append(descs, map[string]any{"op": o, "state": st, "ctx": v.CtxDone(), "udp": v.UDPClosed(), "tun": v.TunClosed(), "rebinds": v.Rebinds(), "tun_closes": v.TunCloses(), "waited": waited})
+				hx.N(uint64(v.Rebinds())), hx.N(uint64(v.TunCloses())), hx.Bool(waited), hx.N(uint64(v.UDPLeftOpen())), hx.N(uint64(v.QueuesHanded())), hx.N(uint64(v.Readers())))))
+			descs = append(descs, map[string]any{"op": o, "state": st, "ctx": v.CtxDone(), "udp": v.UDPClosed(), "tun": v.TunClosed(), "rebinds": v.Rebinds(), "tun_closes": v.TunCloses(), "waited": waited,
+				"udp_opened": v.UDPOpened(), "udp_left_open": v.UDPLeftOpen(), "queues_handed": v.QueuesHanded(), "readers": v.Readers()})
 		}
 		if v.State() != 4 {
 			v.Stop() // leave nothing running
 		}
-		cw.Add(hx.App("Lifecycle_corr.COps", lifeCfgLit(routines, false, false, false, false, false), hx.List(steps)), kind, len(ops) > 2,
-			map[string]any{"routines": routines, "steps": descs})
+		if i < len(sweep) {
+			kind = "sweep"
+		}
+		cw.Add(hx.App("Lifecycle_corr.COps", lifeCfgLit(routines, queues, multi, false, false, false, false, false), hx.List(steps)), kind, len(ops) > 2,
+			map[string]any{"routines": routines, "device_queues": queues, "udp_multi_reader": multi, "steps": descs})
 	}
 	// concurrent Stop / Start: the outcome must always be Stopped and released
 	rounds := 20
@@ -136,20 +166,24 @@ func runLifecycle(c *hx.Ctx) {
 		rounds = 300
 	}
 	for r := 0; r < rounds; r++ {
-		v := nebula.VerifLifeNew(1 + r%3)
+		rr, qq, mm := 1+r%4, 1+(r/4)%(1+r%4), r%5 != 0
+		v := nebula.VerifLifeNew(rr, qq, mm)
 		started := hx.List(nil)
 		if r%2 == 0 {
 			v.Start(false, false)
+			for dl := time.Now().Add(500 * time.Millisecond); v.Readers() != v.QueuesHanded() && time.Now().Before(dl); {
+				time.Sleep(time.Millisecond)
+			}
 			started = hx.List([]string{hx.Tuple(hx.App("OStart", "true"), hx.Tuple(hx.N(uint64(v.State())), hx.Bool(v.CtxDone()), hx.Bool(v.UDPClosed()),
-				hx.Bool(v.TunClosed()), hx.N(uint64(v.Rebinds())), hx.N(uint64(v.TunCloses())), "false"))})
+				hx.Bool(v.TunClosed()), hx.N(uint64(v.Rebinds())), hx.N(uint64(v.TunCloses())), "false", hx.N(uint64(v.UDPLeftOpen())), hx.N(uint64(v.QueuesHanded())), hx.N(uint64(v.Readers()))))})
 		}
 		v.StopConcurrently(2+r%3, r%3 == 0)
-		ok := v.State() == 4 && v.CtxDone() && v.UDPClosed() && v.TunClosed() && v.Wait(2*time.Second) && v.TunCloses() == 1
+		ok := v.State() == 4 && v.CtxDone() && v.UDPClosed() && v.UDPLeftOpen() == 0 && v.TunClosed() && v.Wait(2*time.Second) && v.TunCloses() == 1
 		idx := cw.Total()
-		cw.Add(hx.App("Lifecycle_corr.COps", lifeCfgLit(1+r%3, false, false, false, false, false), started), "concurrent", true,
+		cw.Add(hx.App("Lifecycle_corr.COps", lifeCfgLit(rr, qq, mm, false, false, false, false, false), started), "concurrent", true,
 			map[string]any{"concurrent_stops": 2 + r%3, "with_start": r%3 == 0, "started_first": r%2 == 0, "ok": ok})
 		if !ok {
-			failures = append(failures, map[string]any{"i": idx, "code": 2, "what": fmt.Sprintf("after concurrent Stop/Start: state %d ctx %v udp %v tun %v closes %d", v.State(), v.CtxDone(), v.UDPClosed(), v.TunClosed(), v.TunCloses())})
+			failures = append(failures, map[string]any{"i": idx, "code": 2, "what": fmt.Sprintf("after concurrent Stop/Start: state %d ctx %v udp %v (listeners left open %d of %d) tun %v closes %d", v.State(), v.CtxDone(), v.UDPClosed(), v.UDPLeftOpen(), v.UDPOpened(), v.TunClosed(), v.TunCloses())})
 		}
 	}
 	if len(failures) > 0 {
